@@ -179,6 +179,24 @@ Definition f_bank_combo (sized far_outp fill : bool) (place : nat) (m : Z) : res
   let* r2 := write_at b p 8 in
   with_label b (snd r2) (N.max wf (N.max (fst r1) (fst r2))).
 
+(* ---- every position-advancing path next to the top of the machine word (tools/c19_families.near_top_program):
+   bank a { #bits 1, #addr 0, #outp 0 [, #labelalign n] } / #addr (2^64 - k) / <path> / x:
+   path 0: the label itself, padded to #labelalign n (iter.rs next());  1: #align n;  2: #res n;  3: #d8 (8 bits);
+   4: an 8-bit instruction;  5: an instruction whose production is asm { nop / nop } (16 bits);  6: #addr again;
+   7: #bank b / #res 1 / #bank a / #res n  (positions are per bank) *)
+Definition f_near_top (path : nat) (n k : Z) : res out :=
+  let* b := bank_of (Some 1%Z) (match path with 0%nat => Some n | _ => None end) z0 None None z0 false in
+  let top := (18446744073709551616 - k)%Z in
+  let* p0 := guard_addr_position MB b top in
+  match path with
+  | 0%nat => let* o := aligned_label b p0 0 in Ok (fst o)
+  | 1%nat => let* p := guard_align_position MB b p0 n in with_label b p 0
+  | 2%nat | 7%nat => let* p := res_at b p0 n in with_label b p 0
+  | 3%nat | 4%nat => let* r := write_at b p0 8 in with_label b (snd r) (fst r)
+  | 5%nat => let* _e := asm_block_positions p0 [8; 8] in let* r := write_at b p0 16 in with_label b (snd r) (fst r)
+  | _ => let* p := guard_addr_position MB b (top + n) in with_label b p 0
+  end.
+
 (* ---- inclusion ranges: f.bin = 16 bytes, f.txt = 16 binary digits, h.txt = 16 hex digits *)
 Definition inc_bytes : list N := repeat 0 16.
 Definition inc_chars : list N := repeat 49 16.     (* '1' *)
